@@ -47,6 +47,10 @@ class Spec:
         while c2 < len(s) and self.issep(sep, s[c2]): c2 += 1
         return ("ok", s[c:e], c2, c)
 
+    def brk(self, t):
+        """aBrk of SpecHist.lean: the bracket SetAnchor(t)..RaiseAnchor(t) of a line/token call removes an anchor ahead of t"""
+        if self.anchor is not None and self.anchor > t: self.anchor, self.nanch = None, 0
+
     # validity of positioning ops (mode independent part of the API contract)
     def anchor_ok(self, o):
         return o <= self.cur and (o == self.cur or (self.anchor is not None and o >= self.anchor))
@@ -67,12 +71,14 @@ class Spec:
         r = None
         if name in ("getline", "fetchline", "fetchlinestr"):
             st, b, nxt = self.line()
+            self.brk(self.cur)
             if st == "ok" and name == "getline": self.lastp = self.cur
             self.cur = nxt
             r = dict(st=st, bytes=b, n=len(b), z=(name == "fetchlinestr" and st == "ok"))
         elif name in ("gettoken", "fetchtoken", "fetchtokenstr"):
             sep = bytes.fromhex(kv["sep"]) if kv["sep"] != "-" else b""
             st, b, nxt, start = self.token(sep)
+            if st == "ok": self.brk(start)
             if st == "ok" and name == "gettoken": self.lastp = start
             self.cur = nxt
             r = dict(st=st, bytes=b, n=len(b), z=(name == "fetchtokenstr" and st == "ok"), tok=True)
@@ -144,7 +150,7 @@ class C05(Prop):
         "history_spec", "history_mode_independent", "history_no_fault", "reread_under_anchor", "step_simulates", "get_prefix", "readLines_eq_specLines", "get_all_in_memory", "stable_ptr_valid_quiet", "open_quiet",
         "stable_ptr_valid_partial", "stable_ptr_valid_fails_at",
         # round 3: the API contract discharged
-        "step_total", "history_total", "history_total_no_fault", "error_only_outside_contract", "contract_implies_safe", "safe_decidable",
+        "step_total", "history_total", "history_total_no_fault", "history_total_no_set", "error_only_outside_contract", "contract_implies_callerOk", "callerOk_decidable", "spec_bracket",
         "unsafe_set_beyond_window", "fixed_setoffset_beyond_end_in_memory", "fixed_anchor_ahead_of_cursor", "fixed_rewind_before_anchor",
         "stable_ptr_valid_iff", "plain_anchor_no_promise")]
     claimed = True
@@ -157,10 +163,11 @@ class C05(Prop):
                   "The hand-written model is tied to the working tree by an exact differential run (6 modes x 11 page sizes, histories <= 200 ops, ASan+UBSan) and the implementation is "
                   "monitored against the specification per operation; any difference is a concrete failing (input, mode, page size, history).")
     level_note = ("Partial on one clause: 'pointers handed out under a stable anchor stay valid' is false of the code (buffer_refill reallocates; known finding C05:stable-anchor:realloc-in-refill, "
-                  "proved: stable_ptr_valid_partial + stable_ptr_valid_fails_at). Trusted: Lean kernel + propext/Classical.choice/Quot.sound; model fidelity is checked (not proved) by the differential run; "
-                  "fread/popen/mmap deliver the bytes; allocation never fails; esl_buffer_Open/Close not modelled. Contract assumed of callers: anchors at/before the cursor, "
-                  "SetOffset to a byte of the input (or, while an anchor is set, to its very end) ahead of the cursor or at/after the active anchor, Set within one guaranteed page. "
-                  "SetOffset to the very end WITHOUT an anchor is mode dependent (eslEINVAL in the fseeko branch of FILE mode only) and stays outside the contract.")
+                  "proved: stable_ptr_valid_partial + stable_ptr_valid_fails_at + stable_ptr_valid_iff). Trusted: Lean kernel + propext/Classical.choice/Quot.sound; model fidelity is checked (not proved) by the differential run; "
+                  "fread/popen/mmap deliver the bytes; allocation never fails. history_spec/history_mode_independent (exact equality with the deterministic specification) are stated under the API contract "
+                  "Valid (anchors at/before the cursor, SetOffset to a byte of the input ahead of the cursor or at/after the active anchor, Set within one guaranteed page) because outside it the outcome is window dependent by design "
+                  "(a rewind succeeds iff the target is still loaded); history_total covers ALL histories on which the code defines the outcome (every argument of every call; anchors ahead of the cursor and rewinds before the anchor included), "
+                  "hypothesis CallerOk = no Set(p, nused) beyond the exposed bytes, which the documentation leaves undefined and the code does not check (unsafe_set_beyond_window).")
     diverge_is_violation = True    # on valid histories the model is proved equal to the specification (history_spec)
     quick_budget_s = 60
     technique = ("Lean 4 proof (window invariant + refinement of the hand-written model of esl_buffer.c to the abstract 'bytes + cursor' specification) "
@@ -170,7 +177,12 @@ class C05(Prop):
                     "Lean compiler/runtime for the executable driver", "gcc, glibc fread/fmemopen/popen/mmap deliver the bytes",
                     "python copy of the abstract specification (props/c05.py: Spec) used by the monitor"]
     assumptions = ["fread(k) returns min(k, remaining) bytes and sets the EOF flag on a short count; no I/O errors; allocation never fails (eslEMEM/eslESYS paths not modelled)",
-                   "contract of the positioning calls: anchors are set at or before the cursor and at/after the active anchor; SetOffset targets are < input length (<= while an anchor is set) and either ahead of the cursor or at/after the active anchor; Set(p, k) stays within one guaranteed page of the cursor (how much more is loaded is mode dependent by design)",
+                   "UNDEFINED BY DOCUMENTATION 1 (excluded by the decidable predicate CallerOk, Buffer/Safe.lean): esl_buffer_Set(bf, p, nused) with p + nused beyond the n bytes that the immediately preceding Get/GetLine/GetToken exposed at p",
+                   "UNDEFINED BY DOCUMENTATION 2 (not expressible in the model, never done by the harness): esl_buffer_Set with a pointer p that is not the one returned by the immediately preceding Get/GetLine/GetToken call (stale or foreign pointer)",
+                   "UNDEFINED BY DOCUMENTATION 3 (C-level preconditions, not modelled): bf == NULL or already closed; sep == NULL in the token calls; a Read destination smaller than nbytes; using a returned pointer after the next buffer call without a stable anchor",
+                   "UNDEFINED BY DOCUMENTATION 4: esl_buffer_RaiseAnchor(offset) outside the window or before the active anchor trips ESL_DASSERT1 in a debug build (eslDEBUGLEVEL >= 1); the model is the non-debug build, where it is a defined no-op",
+                   "every other call of the 14 operations is total in the model exactly as in the code (compared exactly on contract-violating histories): SetAnchor/SetStableAnchor outside the window and SetOffset beyond the end or to an unloaded unprotected offset answer eslEINVAL; anchors ahead of the cursor and rewinds before the anchor are handled (b86a62d)",
+                   "history_spec / history_mode_independent keep the API contract Valid as hypothesis: outside it results legitimately depend on what is loaded (page size, mode); history_total (no contract) describes them by the relation Total",
                    "esl_buffer_Open (environment search, .gz detection) and esl_buffer_Close are not modelled; mmap/popen/gzip are OS behaviour, modelled as 'delivers the bytes'"]
     rule = ("case = one opening (mode, page size, input bytes) + a history of <= 200 operations valid under the API contract, generated by simulating the abstract specification; "
             "the same (input, history) is run under 3 configurations; non-trivial = at least one operation returned bytes; distinct by implementation output trace")
@@ -349,7 +361,7 @@ class C05(Prop):
     def gen_wild(self, rng, src, nops, raw=False):
         """histories OUTSIDE the API contract: every positioning call is a `try…` op with an arbitrary target (rewinds with and
         without anchor, offsets at/after the end, anchors left/right of the window or ahead of the cursor, Set beyond the
-        guaranteed page). Both sides execute it only if it respects the residual duties SafeOp in their own current state
+        guaranteed page). Both sides execute it unless it violates CallerOk (only tryset can: Set beyond the exposed bytes) in their own current state
         (else `unsafe`); model = implementation is compared exactly (statuses eslEINVAL/eslOK, offsets, anchor records),
         and the theorem `history_total` says what the model does on every such history."""
         L = len(src)
@@ -372,8 +384,7 @@ class C05(Prop):
             hot.append(o)
             if len(hot) > 12: hot.pop(5)
         if raw:
-            # ungated positioning: also anchors ahead of the cursor and rewinds before the anchor (handled by the code since b86a62d;
-            # beyond the hypothesis of history_total, so these histories only check model = implementation); Set stays gated
+            # the same positioning calls without the try- prefix (since round 4 they are inside history_total either way); Set stays gated
             ops = [o[3:] if o.startswith(("trysetoffset", "trysetanchor", "trysetstable")) else o for o in ops]
         if L == 0: ops = [("read k=1" if o == "read k=0" else o) for o in ops]   # memcpy(p, NULL, 0) on an empty slurped file: UBSan noise, not this property
         return ops
@@ -461,7 +472,7 @@ class C05(Prop):
             for i, (op, l) in enumerate(zip(case["ops"][1:], out[1:]), 1):
                 if l.startswith(("fault", "atexit")): return None
                 if l.split()[0] not in self.WILD_ST:
-                    return Failure("monitor", "op %d %r outside the API contract but within the residual duties answered %r (documented: eslOK/eslEOF/eslEOL/eslEINVAL)" % (i, op, l[:60]))
+                    return Failure("monitor", "op %d %r outside the API contract but inside CallerOk answered %r (documented: eslOK/eslEOF/eslEOL/eslEINVAL)" % (i, op, l[:60]))
             return None
         if case.get("nomonitor"): return None
         ops = case["ops"]
